@@ -338,6 +338,31 @@ func dumpInorder(d string) (string, bool) {
 	return strings.Join(parts, ","), ok
 }
 
+// is the preorder dump a min-heap on the priorities?
+func dumpIsHeap(d string) bool {
+	nodes := parseDump(d)
+	pos := 0
+	ok := true
+	var walk func(parent int, has bool)
+	walk = func(parent int, has bool) {
+		if pos >= len(nodes) {
+			return
+		}
+		n := nodes[pos]
+		pos++
+		if n.Nil {
+			return
+		}
+		if has && n.Priority < parent {
+			ok = false
+		}
+		walk(n.Priority, true)
+		walk(n.Priority, true)
+	}
+	walk(0, false)
+	return ok
+}
+
 func refFromDump(d string) *ref {
 	r := newRef()
 	for _, n := range parseDump(d) {
@@ -360,11 +385,17 @@ type ostate struct {
 	m     *ref
 	vers  []*ref
 	iters []*oIter
+	// built only by Put/Delete from the empty treap (not by mbuild/ibuild, which may start
+	// from a shape that is not a heap): such a treap must be a min-heap on its priorities
+	mPure    bool
+	versPure []bool
 }
 
 var os_ *ostate
 
-func newOState() *ostate { return &ostate{m: newRef(), vers: []*ref{newRef()}} }
+func newOState() *ostate {
+	return &ostate{m: newRef(), vers: []*ref{newRef()}, mPure: true, versPure: []bool{true}}
+}
 
 func strp(b []byte) *string {
 	if b == nil {
@@ -478,9 +509,11 @@ func oracle(t []string, out string) *hx.Violation {
 		markStale()
 	case "mclear":
 		o.m = newRef()
+		o.mPure = true
 		markStale()
 	case "mbuild":
 		o.m = refFromDump(t[1])
+		o.mPure = false
 		o.iters = nil
 	case "mget", "iget":
 		r, k := o.m, ""
@@ -546,6 +579,13 @@ func oracle(t []string, out string) *hx.Violation {
 		if !bst {
 			return viol("not-a-bst", "in-order keys of the tree are not strictly increasing")
 		}
+		pure := o.mPure
+		if t[0] == "ishape" {
+			pure = o.versPure[atoi(t[1])]
+		}
+		if pure && !dumpIsHeap(out) {
+			return viol("not-a-heap", "a treap built by Put/Delete only is not a min-heap on its priorities (balance is lost)")
+		}
 		if want := r.list(1 << 30); in != want {
 			k := "contents-differ"
 			if t[0] == "ishape" {
@@ -555,14 +595,17 @@ func oracle(t []string, out string) *hx.Violation {
 		}
 	case "ibuild":
 		o.vers = append(o.vers, refFromDump(t[1]))
+		o.versPure = append(o.versPure, false)
 	case "iput":
 		r := o.vers[atoi(t[1])].clone()
 		r.put(key(t[2]), key(t[3]))
 		o.vers = append(o.vers, r)
+		o.versPure = append(o.versPure, o.versPure[atoi(t[1])])
 	case "idel":
 		r := o.vers[atoi(t[1])].clone()
 		r.del(key(t[2]))
 		o.vers = append(o.vers, r)
+		o.versPure = append(o.versPure, o.versPure[atoi(t[1])])
 	case "it":
 		switch t[1] {
 		case "new":
